@@ -103,7 +103,10 @@ func runOne(spec Spec) childOutcome {
 		}
 		env = append(env, e)
 	}
-	cmd.Env = append(env, childEnv+"="+specFile, "MUTAGEN_DATA_DIRECTORY="+filepath.Join(spec.Dir, "data"))
+	cmd.Env = append(env, childEnv+"="+specFile, "MUTAGEN_DATA_DIRECTORY="+spec.DataDir)
+	if spec.Shm {
+		defer os.RemoveAll(filepath.Dir(spec.DataDir))
+	}
 	stdioPath := filepath.Join(spec.Dir, "stdio.txt")
 	stdio, err := os.Create(stdioPath)
 	if err != nil {
@@ -165,8 +168,34 @@ func histories(r *vk.Run, prop string) {
 	modes := modesFor(prop)
 	base := filepath.Join(r.Scratch(), "l3")
 	specs := make([]Spec, n)
+	shm := os.Getenv("VERIF_SHM")
 	for i := range specs {
-		specs[i] = Spec{Prop: prop, Index: i, Mode: modes[i%len(modes)], Seed: r.Rand(fmt.Sprintf("l3-history-%d", i)).Int63(), Dir: filepath.Join(base, fmt.Sprintf("h%03d", i))}
+		sp := Spec{Prop: prop, Index: i, Mode: modes[i%len(modes)], Seed: r.Rand(fmt.Sprintf("l3-history-%d", i)).Int63(), Dir: filepath.Join(base, fmt.Sprintf("h%03d", i))}
+		sp.DataDir = filepath.Join(sp.Dir, "data")
+		// Variants, a pure function of (property, index):
+		//  - staging on another device (data directory on tmpfs, roots on ext4): C01, C03
+		//  - entry-count limit on the beta endpoint only: C01, and the two-way-resolved histories of C02
+		switch prop {
+		case "C01":
+			sp.Shm = i%8 == 2 || i%8 == 5
+			if i%8 == 4 {
+				sp.BetaCap = 400
+			}
+		case "C02":
+			if i%6 == 5 {
+				sp.BetaCap = 400
+			}
+		case "C03":
+			sp.Shm = i%8 == 1 || i%8 == 6
+		}
+		if sp.Shm {
+			if shm == "" {
+				sp.Shm = false
+			} else {
+				sp.DataDir = filepath.Join(shm, fmt.Sprintf("l3-%s-h%03d", prop, i), "data")
+			}
+		}
+		specs[i] = sp
 	}
 	workers := runtime.NumCPU() / 2
 	if workers > 8 {
@@ -252,10 +281,13 @@ func histories(r *vk.Run, prop string) {
 	}
 	// liveness of the sensors: what each oracle judges must have occurred
 	need := map[string][]string{
-		"C01": {"l3_paths_removed_or_replaced_by_flush", "l3_both_modified_paths", "l3_both_modified_conflict_listed"},
-		"C02": {"l3_alpha_objects_compared", "l3_paths_removed_or_replaced_by_flush"},
+		"C01": {"l3_paths_removed_or_replaced_by_flush", "l3_both_modified_paths", "l3_both_modified_conflict_listed", "l3_beta_refused_over_limit"},
+		"C02": {"l3_alpha_objects_compared", "l3_paths_removed_or_replaced_by_flush", "l3_beta_refused_over_limit"},
 		"C03": {"l3_untracked_objects_checked", "l3_rounds_with_parent_attacked"},
-		"C04": {"l3_quiescent_flush_pairs", "l3_fixpoint_reconciliations", "l3_convergence_paths_compared"},
+		"C04": {"l3_quiescent_flush_pairs", "l3_fixpoint_reconciliations:after-cycle", "l3_convergence_paths_compared", "l3_edits:edit-content-and-x", "l3_agreement_only_cycles_checked"},
+	}
+	if shm != "" && (prop == "C01" || prop == "C03") {
+		need[prop] = append(need[prop], "l3_histories_staging_on_other_device")
 	}
 	for _, k := range need[prop] {
 		if r.Counter(k) == 0 {
